@@ -53,6 +53,8 @@ FILE_NAMES = ["a.txt", "b.bin", "data", "with space.txt", "two  spaces .dat", " 
 DIR_NAMES = ["sub", "sub dir", "excluded dir", "skip_dir", "cache.tmp", "ünï", "глубоко",
              "d", "empty", "a.txt", ".git", "目 录", "skip_", "docs.txt"]
 ALPHABET = "abcXYZ019 ._-éßЖ中\U0001f600~+'"
+SIBLING_AFFIXES = [(".part", ""), (".tmp", ""), ("~", ""), (".bak", ""), (".swp", "."), (".partial", ""), (".download", ""), (".0", ""),
+                   ("", "."), ("", "~"), ("", ".#"), (".new", ""), (".old", ""), (".lock", ""), (".crdownload", ""), ("", "tmp_")]
 
 
 # ----------------------------------------------------------------------------------------------------------------------
@@ -130,7 +132,12 @@ def gen_bytes(rng, n, c):
 
 def gen_name(rng, pool, used):
     for _ in range(50):
-        if rng.random() < 0.75:
+        if used and rng.random() < 0.2:
+            # a sibling whose name is derived from one already there, the way tools name their scratch, backup and partial files
+            base = rng.choice(sorted(used))
+            name = rng.choice([base + sfx for sfx in (".part", ".tmp", "~", ".bak", ".swp", ".partial", ".0", " (1)", ".part.part")] +
+                              [pfx + base for pfx in (".", "~", "tmp", ".#")])
+        elif rng.random() < 0.75:
             name = rng.choice(pool)
         else:
             name = "".join(rng.choice(ALPHABET) for _ in range(rng.randrange(1, 10)))
@@ -184,6 +191,26 @@ def build_source(spec, c):
         name = rng.choice(FILE_NAMES)
         return name, gen_bytes(rng, size_for(spec["size_class"], c, rng), c)
     rng = random.Random("C20tree/%s/%s" % (spec["seed"], c))
+    if spec["kind"] == "siblings":
+        # every directory holds pairs of names of which one is the other plus the kind of suffix / prefix that tools give
+        # their scratch, partial and backup files; each pair is created in both orders (directory listings follow it on some
+        # file systems), at two levels
+        def level(tag):
+            d = {}
+            for k, (sfx, pfx) in enumerate(SIBLING_AFFIXES):
+                base = "%s%d%s" % (tag, k, rng.choice(["", ".bin", ".txt"]))
+                derived = pfx + base + sfx
+                pair = [(base, gen_bytes(rng, rng.choice([0, 1, 7, 300]), c)), (derived, gen_bytes(rng, rng.choice([0, 2, 9, 200]), c))]
+                if k % 2:
+                    pair.reverse()
+                for n, data in pair:
+                    d[n] = data
+                if rng.random() < .5:
+                    d[pfx + derived + sfx] = gen_bytes(rng, 5, c)
+            return d
+        top = level("report")
+        top["sub"] = level("data")
+        return "siblings.d", top
     if spec["kind"] == "file":
         name = gen_name(rng, FILE_NAMES, set())
         return name, gen_bytes(rng, size_for(rng.choice(SIZE_CLASSES), c, rng), c)
@@ -433,7 +460,7 @@ class Runner(object):
         ctx.case((direction, spec["chunk"], spec["filter"], spec["api"], spec["dest"], shape(source, c)), nontrivial=nfiles > 0)
         wit = dict(spec=spec, effective_chunk=c, source_top_name=top, source=listing(source, c))
         self.nsampled.setdefault(spec["kind"], 0)
-        if self.nsampled[spec["kind"]] < (1 if spec["kind"] != "tree" else 3) and (nfiles > 1 or spec["kind"] != "tree"):
+        if self.nsampled[spec["kind"]] < (1 if spec["kind"] not in ("tree", "siblings") else 3) and (nfiles > 1 or spec["kind"] not in ("tree", "siblings")):
             self.nsampled[spec["kind"]] += 1
             ctx.sample(dict(direction=direction, chunk=spec["chunk"] or "default(%d)" % c, filter=spec["filter"], api=spec["api"],
                             destination=spec["dest"], source=listing(source, c, 8)))
@@ -562,6 +589,13 @@ def grid_specs():
                            api="generic" if (CHUNKS.index(c) + SIZE_CLASSES.index(cls)) % 2 else "file", dest="absent")
 
 
+def sibling_specs(tag):
+    for direction in ("upload", "download"):
+        for api, dest in (("generic", "absent"), ("dir", "exists-merge"), ("positional", "exists-empty")):
+            yield dict(kind="siblings", seed="%s/%s/%s" % (tag, direction, api), chunk=None if api == "dir" else 16, direction=direction,
+                       filter="none", api=api, dest=dest)
+
+
 def random_specs(rng, tag):
     """two transfers (one per direction) of one generated source"""
     r = rng.random()
@@ -594,6 +628,11 @@ def run(ctx):
                 if runner.dead or ctx.enough():
                     break
                 runner.run_case(spec)
+            for spec in sibling_specs("%s/%s" % (ctx.seed, ctx.tier)):
+                if runner.dead or ctx.enough():
+                    break
+                runner.run_case(spec)
+                ctx.count("sibling_name_transfers")
         rng = ctx.rng
         for i in range(ctx.budget(60, 20000)):
             if runner.dead or ctx.enough():
